@@ -108,7 +108,7 @@ func nbtDecode(fmtName string, input []byte, target string, class string) (ev nb
 					e := nbt.NewEncoder(&out)
 					e.NetworkFormat(fmtName == "network")
 					err = e.Encode(v, name)
-					ev.Out = ints(out.Bytes())
+					ev.Out = ints(capBytes(out.Bytes(), len(input)+64))
 				} else {
 					ev.K = "carrier"
 				}
@@ -121,7 +121,7 @@ func nbtDecode(fmtName string, input []byte, target string, class string) (ev nb
 					e := nbt.NewEncoder(&out)
 					e.NetworkFormat(fmtName == "network")
 					err = e.Encode(&v, name)
-					ev.Out = ints(out.Bytes())
+					ev.Out = ints(capBytes(out.Bytes(), len(input)+64))
 				}
 			case "snbt":
 				var v nbt.StringifiedMessage
@@ -158,7 +158,18 @@ func nbtDecode(fmtName string, input []byte, target string, class string) (ev nb
 	if ev.Out == nil {
 		ev.Out = []int{}
 	}
+	if len(ev.Out) > len(input)+64 {
+		// a re-encoding much longer than the captured document can never be byte-exact; keep the event small
+		ev.Out = ev.Out[:len(input)+64]
+	}
 	return
+}
+
+func capBytes(b []byte, n int) []byte {
+	if len(b) > n {
+		return b[:n]
+	}
+	return b
 }
 
 // shaped typed target: a Go type built from the document's own shape
